@@ -569,7 +569,62 @@ def rule_rsv1(ctx):
     ctx.ob("onFrameEnd: decompressor finished on the FIN frame of a compressed message", ok, "changed", fe.loc())
 
 
+def rule_deflate_offer_cells(ctx):
+    """What the server learns from an offer decides what it may answer (RFC 7692 7.1): `client_max_window_bits` may only be answered when the
+    client offered it, `server_*` parameters are requests.  PerMessageDeflateOffer.parse is evaluated cell-wise (sa.core.tiny) on parameter
+    sets; the constructor must see: accept_max_window_bits iff the client offered client_max_window_bits, request_* iff it asked for them."""
+    from ..core.tiny import Tiny, Sym
+    ctx.rule("C12.2-parse-closure")
+    cls = ctx.program.module(MODS["deflate"]).classes["PerMessageDeflateOffer"]
+    fn = cls.methods["parse"]
+    ctx.analysed(fn)
+    mixin = ctx.program.module(MODS["deflate"]).classes["PerMessageDeflateMixin"]
+    wsv = ctx.program.class_const(mixin, "WINDOW_SIZE_PERMISSIBLE_VALUES")
+    names = cls.methods["__init__"].params()[1:]
+    body = [x for x in fn.node.body if not (isinstance(x, ast.Expr) and isinstance(x.value, ast.Constant))]
+    cells = [({}, (False, False, 0)), ({"client_max_window_bits": [True]}, (True, False, 0)), ({"client_max_window_bits": ["10"]}, (True, False, 0)),
+             ({"client_no_context_takeover": [True]}, (False, False, 0)), ({"server_max_window_bits": ["12"]}, (False, False, 12)),
+             ({"server_no_context_takeover": [True]}, (False, True, 0)),
+             ({"client_max_window_bits": [True], "server_no_context_takeover": [True], "server_max_window_bits": ["9"]}, (True, True, 9)),
+             ({"client_max_window_bits": ["8"]}, None), ({"client_max_window_bits": ["x"]}, None), ({"server_max_window_bits": [True]}, None),
+             ({"server_max_window_bits": ["16"]}, None), ({"client_no_context_takeover": ["1"]}, None), ({"server_no_context_takeover": ["0"]}, None),
+             ({"client_max_window_bits": [True, True]}, None), ({"foo": [True]}, None)]
+    probs = []
+    try:
+        for params, want in cells:
+            made = []
+
+            def ctor(*a_, **k_):
+                b_ = dict(zip(names, a_))
+                b_.update(k_)
+                made.append(b_)
+                return Sym("offer")
+            env = {fn.params()[0]: Sym("class PerMessageDeflateOffer", methods={"__call__": ctor}, EXTENSION_NAME="permessage-deflate"),
+                   fn.params()[1]: {k: list(v) for k, v in params.items()}, "PerMessageDeflateMixin.WINDOW_SIZE_PERMISSIBLE_VALUES": list(wsv),
+                   "PerMessageDeflateMixin": Sym("class", WINDOW_SIZE_PERMISSIBLE_VALUES=list(wsv))}
+            r = Tiny(env, default_call=lambda f_, a_, k_=None: Sym(f"<{f_}>"), model_strings=True, model_types=True, opaque_globals=True).run(body)
+            tag = f"offer parameters {params}"
+            if want is None:
+                if r[0] != "raise":
+                    probs.append(f"{tag}: accepted, expected to be refused")
+                continue
+            if r[0] != "return" or len(made) != 1:
+                probs.append(f"{tag}: {r[0]} {str(r[1])[:50]}")
+                continue
+            got = (made[0].get("accept_max_window_bits"), made[0].get("request_no_context_takeover"), made[0].get("request_max_window_bits"))
+            if got != want:
+                probs.append(f"{tag}: the server learns (may answer client_max_window_bits, no_context_takeover requested, window bits requested) = {got}, expected {want}")
+    except AnalysisError as e:
+        raise AnalysisError(f"[C12.2-parse-closure] PerMessageDeflateOffer.parse outside the modelled subset: {e}")
+    ctx.ob(f"deflate offer: client_max_window_bits may be answered iff offered; server_* requests are taken as given; malformed parameters refused [{len(cells)} cells]",
+           not probs, "; ".join(probs[:2]), fn.loc())
+
+
 def run(ctx):
+    # "any sequence of messages ... is received identical": per-message state of the inflating side is reset at every message start
+    from .c16 import rule_message_start
+    rule_message_start(ctx, "C12.8-per-message-inflate-state")
+    rule_deflate_offer_cells(ctx)
     rule_param_tables(ctx)
     rule_parse_closure(ctx)
     rule_role_mapping(ctx)
